@@ -53,11 +53,10 @@ func zzC05Call(name string, args ...slip.Object) (out zzC05Out) {
 				if tr.Condition != nil {
 					out.cond = string(tr.Condition.Hierarchy()[0])
 				}
-				if tr.Value != nil || zzC05IsRuntime(tr) {
-					// normalAfter wraps Go run-time errors into a plain error condition
-					if zzC05IsRuntime(tr) {
-						out.class = 3
-					}
+				if tr.Value != nil {
+					// normalAfter wraps a Go panic that is not a slip condition
+					// (run-time error, string panic of a library) this way
+					out.class = 3
 				}
 			case slip.Instance:
 				out.class = 1
@@ -81,11 +80,6 @@ func zzC05Call(name string, args ...slip.Object) (out zzC05Out) {
 		out.vals = slip.Values{r}
 	}
 	return
-}
-
-func zzC05IsRuntime(p *slip.Panic) bool {
-	m := p.Message
-	return len(m) >= 14 && m[:14] == "runtime error:" || len(m) >= 21 && m[:21] == "interface conversion:"
 }
 
 var zzC05Min64 = new(big.Int).Lsh(big.NewInt(-1), 63)
@@ -200,6 +194,16 @@ func VerifC05Division(kind int, rep0 int, rep1 int) {
 	}
 	wq, wr := zzC05RefDiv(kind, vx, vy)
 	vrt.Carve("C05-division-overflow", rep0 == 0 && rep1 == 0 && !zzC05Fits(wq))
+	tq, tr := zzC05RefDiv(2, vx, vy)
+	_ = tq
+	vrt.Carve("C05-floor-negative-divisor", kind == 0 && rep0 == 0 && rep1 == 0 && vy.Sign() < 0 && tr.Sign() != 0)
+	vrt.Carve("C05-round-wrong", kind == 3 && rep0 == 0 && rep1 == 0 && tr.Sign() != 0)
+	vrt.Carve("C05-round-bignum-negative", kind == 3 && (rep0 == 1 || rep1 == 1) && (vx.Sign() < 0 || vy.Sign() < 0))
+	if kind == 3 {
+		// non-linear: keep the fixnum round obligation within solver reach
+		lim := big.NewInt(1 << 20)
+		vrt.Assume(new(big.Int).Abs(vx).Cmp(lim) < 0 && new(big.Int).Abs(vy).Cmp(lim) < 0)
+	}
 	out := zzC05Call(zzC05Divs[kind], x, y)
 	vrt.Reach("called")
 	vrt.Assert(out.class == 0, "rounding division signalled instead of returning")
@@ -288,6 +292,7 @@ func VerifC05Canonical(op int, rep0 int, rep1 int) {
 	vrt.Assume(out.class == 0)
 	got, ok := zzC05Value(out.one)
 	vrt.Assume(ok && got.Cmp(want) == 0) // exactness is VerifC05Arith's business
+	vrt.Carve("C05-noncanonical-bignum-result", (rep0 == 1 || rep1 == 1) && zzC05Fits(want))
 	_, isFix := out.one.(slip.Fixnum)
 	vrt.Assert(isFix == zzC05Fits(want), "integer result is not in canonical form (fixnum iff it fits)")
 }
@@ -356,6 +361,7 @@ func VerifC05Ash(n int, rep int) {
 	} else {
 		want.Rsh(vx, uint(-n)) // floor
 	}
+	vrt.Carve("C05-ash-fixnum", rep == 0 && ((n < 0 && vx.Sign() < 0) || (n > 0 && (!zzC05Fits(want) || n >= 64))))
 	out := zzC05Call("ash", x, slip.Fixnum(n))
 	vrt.Reach("called")
 	vrt.Assert(out.class == 0, "ash signalled")
